@@ -2,14 +2,20 @@ SPECIFICATION FineSpec
 CONSTANTS
   Cons = {"s1", "s2"}
   Healthy = {}
+  Other = {}
   N = 1
   HCap = 64
   Parts = 1
+  ElemParts = 1
   WsMode = TRUE
+  EnqAcct = FALSE
+  HasDeadline = TRUE
+  Prime = FALSE
   MaxPub = 4
   MaxRead = 2
   MaxStall = 2
   MaxSweep = 2
   MaxLeave = 0
+  MaxPubB = 0
 INVARIANTS WholeUnits NoBlocking QueueBound
 VIEW FineView
